@@ -118,3 +118,6 @@ impl std::fmt::Display for ExpressionTreeHash {
         write!(f, "{}", self.0)
     }
 }
+#[cfg(kani)]
+#[path = "/verif/kani/execution.rs"]
+mod verif_kani;
